@@ -250,6 +250,11 @@ func visitInstr(fr *frame, instr ssa.Instruction) continuation {
 		// no-op
 
 	case *ssa.UnOp:
+		if race.on && instr.Op == token.MUL {
+			if ptr, ok := fr.get(instr.X).(*value); ok {
+				raceLoad(fr, instr.X, ptr)
+			}
+		}
 		fr.set(instr, unop(instr, fr.get(instr.X)))
 
 	case *ssa.BinOp:
@@ -309,6 +314,7 @@ func visitInstr(fr *frame, instr ssa.Instruction) continuation {
 		if addr == nil {
 			panic(runtimeError("invalid memory address or nil pointer dereference"))
 		}
+		raceStore(fr, instr.Addr, addr)
 		store(mustDeref(instr.Addr.Type()), addr, fr.get(instr.Val))
 
 	case *ssa.If:
@@ -370,6 +376,9 @@ func visitInstr(fr *frame, instr ssa.Instruction) continuation {
 		fr.set(instr, makeMap(instr.Type().Underlying().(*types.Map).Key()))
 
 	case *ssa.Range:
+		if m, ok := fr.get(instr.X).(*Map); ok {
+			raceMap(fr, m, instr.X, false)
+		}
 		fr.set(instr, rangeIter(fr.get(instr.X), instr.X.Type()))
 
 	case *ssa.Next:
@@ -418,6 +427,9 @@ func visitInstr(fr *frame, instr ssa.Instruction) continuation {
 		if isStr(x) {
 			fr.set(instr, strIndex(x, fr.get(instr.Index)))
 		} else {
+			if m, ok := x.(*Map); ok {
+				raceMap(fr, m, instr.X, false)
+			}
 			fr.set(instr, lookup(instr, x, fr.get(instr.Index)))
 		}
 
@@ -427,6 +439,7 @@ func visitInstr(fr *frame, instr ssa.Instruction) continuation {
 		v := fr.get(instr.Value)
 		switch m := m.(type) {
 		case *Map:
+			raceMap(fr, m, instr.Map, true)
 			m.insert(copyVal(normStr(key)), copyVal(v))
 		default:
 			panic(fmt.Sprintf("illegal map type: %T", m))
